@@ -72,6 +72,17 @@ def gen_cases(rng, tier):
         for op in JOINS:
             out.append(("core %s" % op, X.join(op, wide, narrow)))
             out.append(("core %s" % op, X.join(op, narrow, wide)))
+    # enumerated core: several matching rows share one residue value (the result must still be a set), with the kept
+    # attributes leading or trailing in the stored column order, under every operator and both operand orders
+    for lcols, rcols in ((["a", "b"], ["b", "c"]), (["b", "a"], ["b", "c"]), (["a", "b"], ["c", "b"]), (["a", "x", "b"], ["b", "c"]), (["a", "b", "c"], ["b", "c", "d"])):
+        lrows = {"a": [1, 1, 4], "b": [2, 3, 5], "x": [7, 7, 7], "c": [0, 0, 0]}
+        rrows = {"b": [2, 3, 5], "c": [0, 0, 0], "d": [9, 9, 8]}
+        L = X.rel(lcols, [[N(lrows[c][i]) for c in lcols] for i in range(3)])
+        R = X.rel(rcols, [[N(rrows[c][i]) for c in rcols] for i in range(3)])
+        for op in JOINS:
+            out.append(("residue core %s" % op, X.join(op, L, R)))
+            out.append(("residue core %s" % op, X.join(op, R, L)))
+            out.append(("residue core count %s" % op, X.unop("count", X.join(op, L, R))))
     # wide x narrow with three or more common columns, either side join-built in any stored order
     WIDE = ["a", "b", "c", "d", "e"]
     for _ in range(120 if tier == "quick" else 1200):
